@@ -8,7 +8,7 @@ confirm = {}
 for f in glob.glob("/tmp/mut/confirm*.log") + glob.glob("/tmp/claude-0/-verif/*/tasks/*.output"):
     try:
         for line in open(f, errors="ignore"):
-            m = re.match(r"CONFIRM (C\d+)-out ([AB]): suite_with_change_exit=(\d+) demo_with_change_exit=(\d+) demo_without_change_exit=(\d+)", line)
+            m = re.match(r"CONFIRM ([CD]\d+)-out ([AB]): suite_with_change_exit=(\d+) demo_with_change_exit=(\d+) demo_without_change_exit=(\d+)", line)
             if m:
                 confirm[(m.group(1), m.group(2))] = (int(m.group(3)), int(m.group(4)), int(m.group(5)))
     except Exception:
@@ -16,13 +16,13 @@ for f in glob.glob("/tmp/mut/confirm*.log") + glob.glob("/tmp/claude-0/-verif/*/
 results = {}
 for f in sorted(glob.glob("/tmp/mut/q*.log")):
     for line in open(f):
-        m = re.match(r"RESULT patch=(C\d+)-out/([AB])[^ ]* check=(C\d+) exit=(\d+) secs=(\d+) ?(.*)", line)
+        m = re.match(r"RESULT patch=([CD]\d+)-out/([AB])[^ ]* check=(C\d+) exit=(\d+) secs=(\d+) ?(.*)", line)
         if m:
             key = (m.group(1), m.group(2))
             sigs = re.findall(r"signature=(\S+)", m.group(6))
             results.setdefault(key, {})[m.group(3)] = (int(m.group(4)), int(m.group(5)), sigs[:2])
 rows = []
-for d in sorted(glob.glob("/tmp/wt/C*-out")):
+for d in sorted(glob.glob("/tmp/wt/[CD]*-out")):
     prop = os.path.basename(d)[:3]
     for x in "AB":
         patches = glob.glob(f"{d}/{x}*.patch.diff")
@@ -34,7 +34,9 @@ for d in sorted(glob.glob("/tmp/wt/C*-out")):
         if not ok:
             print(f"NOT CONFIRMED {key}: {c}", file=sys.stderr)
             continue
-        dst = f"{OUT}/{prop}-{x}"
+        real_prop = "C" + prop[1:]
+        name = f"{real_prop}-{x}" if prop[0] == "C" else f"{real_prop}-r2-{x}"
+        dst = f"{OUT}/{name}"
         os.makedirs(dst, exist_ok=True)
         shutil.copy(patches[0], f"{dst}/patch.diff")
         for demo in glob.glob(f"{d}/{x}*.demo.*"):
@@ -47,8 +49,8 @@ for d in sorted(glob.glob("/tmp/wt/C*-out")):
         missed = sorted(k for k, v in res.items() if v[0] == 0)
         inconclusive = sorted(k for k, v in res.items() if v[0] not in (0, 1))
         meta = {
-            "breaks_property": prop,
-            "author": "sub-agent that saw only the property text and its own scratch worktree",
+            "breaks_property": real_prop,
+            "author": "sub-agent that saw only the property text and its own scratch worktree" + ("" if prop[0] == "C" else " (second round: it was also told, in one line each, which changes the first round had delivered, and asked for different ones)"),
             "what_it_needs_to_manifest": meta_txt.strip(),
             "confirmed_by_me": {
                 "how": "tools/confirm_mutant.sh in the scratch worktree /tmp/mut/repo-confirm: cargo test --workspace --offline with the change; the demonstration as tests/demo_x.rs with and without the change",
@@ -64,7 +66,7 @@ for d in sorted(glob.glob("/tmp/wt/C*-out")):
         }
         json.dump(meta, open(f"{dst}/meta.json", "w"), indent=1)
         first = meta_txt.strip().splitlines()[0][:110] if meta_txt.strip() else ""
-        rows.append((f"{prop}-{x}", ", ".join(f"{k} ({res[k][1]} s)" for k in caught) or "-", ", ".join(missed) or "-", ", ".join(inconclusive) or "-", first))
+        rows.append((name, ", ".join(f"{k} ({res[k][1]} s)" for k in caught) or "-", ", ".join(missed) or "-", ", ".join(inconclusive) or "-", first))
 print("| change | caught by (time to failure incl. shrinking) | run but silent | inconclusive |")
 print("|---|---|---|---|")
 for r in rows:
